@@ -89,7 +89,7 @@ def main(tier, seed, replay=None):
     classes = {}
     pokes = {}
     ncases = 0
-    for profile in (("dev",) if tier == "quick" else ("dev", "release")):
+    for profile in ("dev", "release"):
         binp = build_harness(profile)
         results = run_harness(binp, "scenario", cases, os.path.join(COQ, "run", "C08"), timeout_ms=10000, tag=profile)
         for c, r in zip(cases, results):
